@@ -26,5 +26,6 @@ run decorator_test.go.part decorator graph objects
 run decorator_test.go.part decorator errors resolvers
 run decorator_test.go.part decorator save save
 run decorator_test.go.part decorator imports imports
+run decorator_test.go.part decorator attach comments
 for op in Append Prepend Replace Clear All; do run dst_test.go.part . declist $op; done
 exit $rc
